@@ -24,12 +24,14 @@ PROP = {
     "assumptions": ["exact __int128 orientation/winding oracle in harness/common/geom.h is correct",
                     "inputs outside general position (filter: 3.001+M*2^-50 separation) are not explored"],
     "floor": _q(5000, 100000),
-    "must_count": _q(["points_judged", "boundary_points_checked"], ["points_judged", "boundary_points_checked"]),
+    "must_count": _q(["points_judged", "boundary_points_checked", "deep_points_judged"], ["points_judged", "boundary_points_checked", "deep_points_judged"]),
     "post": _post,
     "jobs": [
         {"mon": "mon_c01", "cfg": "plain", "cases": _q(40000, 1600000)},
         {"mon": "mon_c01", "cfg": "hp", "cases": _q(20000, 800000), "seed_off": 1000003},
         {"mon": "mon_c01", "cfg": "portable", "cases": _q(0, 400000), "seed_off": 2000003},
+        {"mon": "mon_c01", "cfg": "plain", "cases": _q(7 * 64, 7 * 64), "args": ["--mode", "deep"], "seed_off": 5},
+        {"mon": "mon_c01", "cfg": "plain", "cases": _q(0, 27), "shards": 16, "args": ["--mode", "deep", "--deep_thorough", "1", "--case_timeout", "1500"], "seed_off": 6},
         {"mon": "mon_c01", "cfg": "cov", "cases": _q(0, 30000), "seed_off": 3000003, "shards": 4, "env": _cov.env_for("mon_c01")},
     ],
 }
